@@ -20,15 +20,16 @@ def sh(cmd, **kw):
 out = {}
 try:
     r = sh('git -C /repo worktree add -q --detach %s HEAD' % wt); assert r.returncode == 0, r.stdout
-    if a.demo:
-        r = sh('cd %s && /venv/bin/python %s' % (wt, os.path.abspath(a.demo))); out['demo_clean_rc'] = r.returncode
+    if a.demo:      # the demo must import the worktree's polymath: run a copy placed in the worktree root
+        shutil.copy(os.path.abspath(a.demo), os.path.join(wt, '_demo.py'))
+        r = sh('cd %s && /venv/bin/python _demo.py' % wt); out['demo_clean_rc'] = r.returncode
     r = sh('git -C %s apply %s' % (wt, os.path.abspath(a.patch)))
     if r.returncode != 0:
         print('PATCH-DOES-NOT-APPLY', r.stdout[-500:]); sys.exit(2)
     if a.tests:
         r = sh('cd %s && /venv/bin/python -m pytest -q -p no:cacheprovider 2>&1 | tail -1' % wt); out['tests'] = r.stdout.strip()
     if a.demo:
-        r = sh('cd %s && /venv/bin/python %s' % (wt, os.path.abspath(a.demo))); out['demo_patched_rc'] = r.returncode
+        r = sh('cd %s && /venv/bin/python _demo.py' % wt); out['demo_patched_rc'] = r.returncode
     env = dict(os.environ, VERIF_REPO=wt, VERIF_SEED=a.seed)
     r = sh('cd /verif && ./check %s --tier %s' % (a.prop, a.tier), env=env)
     viol = [l for l in r.stdout.split('\n') if l.startswith('VIOLATION')]
